@@ -155,6 +155,22 @@ func (g *gen) metaPair() (kind string, a, b []string) {
 			comb += c
 			var1 = append(var1, "-"+c)
 		}
+		if g.chance(50) {
+			// … ending in a value option: -abX=v ≡ -a -b -X=v ≡ -a -b -X v
+			var xs []string
+			for _, o := range g.optsWhere(func(o optEntry) bool { return o.valued() && o.hasShort && len([]rune(o.short)) == 2 }) {
+				xs = append(xs, string([]rune(o.short)[1:]))
+			}
+			x, v := g.pick(xs), g.pick([]string{"json", "a=b", "k=v=w", "", "=", "mp3"})
+			switch g.r.Intn(3) {
+			case 0:
+				return "same", cat(pre, []string{comb + x + "=" + v}, suf), cat(pre, var1, []string{"-" + x + "=" + v}, suf)
+			case 1:
+				return "same", cat(pre, []string{comb + x + "=" + v}, suf), cat(pre, var1, []string{"-" + x, v}, suf)
+			default:
+				return "same", cat(pre, []string{comb + x, v}, suf), cat(pre, var1, []string{"-" + x, v}, suf)
+			}
+		}
 		return "same", cat(pre, []string{comb}, suf), cat(pre, var1, suf)
 	case 1: // eq_form
 		o := g.pickOpt(optEntry.valued)
@@ -242,8 +258,14 @@ func (g *gen) pickProg() string {
 	case 0:
 		return g.pick([]string{".", ".", ".a?", ".,.", "empty", "-1", "type", "[.]"})
 	case 1:
+		if g.chance(50) {
+			return failOnNumber(g.pick(errValues))
+		}
 		return g.pick([]string{progFnum, progFnum2})
 	case 2:
+		if g.chance(50) {
+			return g.pick([]string{"error(" + g.pick(errValues) + ")", "null|error", "(.missing? // null)|error", "., (false|error)"})
+		}
 		return g.pick([]string{progFall, progFall2})
 	case 3:
 		return g.pick([]string{"(", ".a.", "nosuchfunc", "$nosuchvar"})
